@@ -293,6 +293,15 @@ pub fn arithmetic() -> Vec<Snip06> {
                             match target {
                                 None => stmts.push(b.print(vec![e])),
                                 Some(t) => {
+                                    // the same expression stored bare and inside parentheses
+                                    let mut stmts2 = stmts.clone();
+                                    stmts2.push(b.assign(tv("T", t), Expr::Paren(Box::new(e.clone()))));
+                                    stmts2.push(b.print(vec![tv("T", t)]));
+                                    out.push(Snip06 {
+                                        snip: Snip { stmts: stmts2, label: format!("{:?} {} {:?} {:?} {} -> {:?} (parenthesised)", ta, a, op, tb, bv, target), ill_typed: false },
+                                        stdin: String::new(),
+                                        boundary: true,
+                                    });
                                     stmts.push(b.assign(tv("T", t), e));
                                     stmts.push(b.print(vec![tv("T", t)]));
                                 }
